@@ -23,7 +23,8 @@ var forwardedDepth sync.Map // *xml.Decoder -> int
 type Handshake struct {
 	XMLName xml.Name `xml:"jabber:component:accept handshake"`
 	// TODO Add handshake value with test for proper serialization
-	Value string `xml:",innerxml"`
+	// the hexadecimal digest: character data, so that no value can be taken for markup
+	Value string `xml:",chardata"`
 }
 
 func (Handshake) Name() string {
